@@ -228,4 +228,12 @@ EpKnownKey(e) ==
          /\ Ok(e) /\ ValidTag(e.R) /\ PAbs(e, e.R).inf
             -> "C03-addprojc-order-two-difference"
       [] OTHER -> ""
+
+(* One event can belong to two classes: a THROWN ep_mul_sim_trick call with a  *)
+(* table entry at infinity and a zero reduced scalar is explained by either    *)
+(* finding (the table is normalised first, then the scalars are recoded), so   *)
+(* which of the two is observed depends on which one is still unrepaired.      *)
+EpKnownKeyAlt(e) ==
+    IF EpKnownKey(e) = "C03-sim-table-infinity" /\ e.op = "ep_mul_sim_trick" /\ TrickFirstShort(e) = <<>>
+    THEN "C03-simtrick-short-scalar" ELSE ""
 =============================================================================
